@@ -269,7 +269,7 @@ impl Driver for C09 {
         }
     }
     fn rule(&self) -> String {
-        "(exhaustive at every run) all flat sequences of 1..4 leaves a,b,c,d with every choice of the 9 binary operators between them and of the prefix (none, -, not) on each leaf - 3^n*9^(n-1) sequences, 61,320 in total, alternately in keyword and symbol (&& || ! -> <->) spelling; (random) sequences up to 12 leaves with nested parentheses, implicit products 2x, 2(x+1), (a)(b)c and identifiers that start with a keyword (android, notx, iffy, minx, inx, format, xorg, orb, truex, asx, falsey, solver, letter, whereas, defined, maxim, impliesx, Trueish) or are a keyword followed by a digit (not1, or2, and3, xor1, min2, max2, in3, iff1, true1, false0, sum1, as2, for3, implies1, solve1, let2). Each text is embedded as the objective of a program and compiled with RoocParser::parse_and_transform; the compiled tree and the tree of the harness's own precedence-climbing parser (table from the documented grammar) are evaluated exactly at all assignments over {0,1,2,3} of the variables used (256 for four variables) and must agree, including where both are undefined. non-trivial = distinct text with at least one binary operator".into()
+        "(exhaustive at every run) all flat sequences of 1..4 leaves a,b,c,d with every choice of the 9 binary operators between them and of the prefix (none, -, not) on each leaf - 3^n*9^(n-1) sequences, 61,320 in total, alternately in keyword and symbol (&& || ! -> <->) spelling; (random) sequences up to 12 leaves with nested parentheses, implicit products 2x, 2(x+1), (a)(b)c and identifiers that start with a keyword (android, notx, iffy, minx, inx, format, xorg, orb, truex, asx, falsey, solver, letter, whereas, defined, maxim, impliesx, Trueish) or are a keyword followed by a digit (not1, or2, and3, xor1, min2, max2, in3, iff1, true1, false0, sum1, as2, for3, implies1, solve1, let2). Each text is embedded as the objective of a program and compiled with RoocParser::parse_and_transform; the compiled tree and the tree of the harness's own precedence-climbing parser (table from the documented grammar) are evaluated exactly at all assignments over {0,1,2,3} of the variables used (256 for four variables) and must agree, including where both are undefined. non-trivial = distinct text with at least one binary operator Half of the exhaustive sequences and 40% of the random ones are written without blanks around the operators that are not words (a&&b, a->b, 2*-x).".into()
     }
     fn thresholds(&self, tier: Tier) -> Thresholds {
         let s = tier.pick(1, 25);
